@@ -431,6 +431,48 @@ func blsAggregation() {
 		_, e = crypto.AggregateBLSPrivateKeys([]crypto.PrivateKey{sks[0], negsk})
 		st.addS("sk+(-sk)", errS(e))
 	}
+	// keys held in NON-AFFINE internal form (results of RemoveBLSPublicKeys, public key shares of the
+	// threshold key generation) as inputs of aggregation, removal and one-message verification: the point
+	// addition formulas chosen per configuration must not assume affine inputs
+	{
+		jac := make([]crypto.PublicKey, 6)
+		for i := range jac {
+			agg, _ := crypto.AggregateBLSPublicKeys([]crypto.PublicKey{pks[i], pks[i+7], pks[i+9]})
+			jac[i], _ = crypto.RemoveBLSPublicKeys(agg, []crypto.PublicKey{pks[i+7], pks[i+9]}) // = pks[i], projective
+			st.addS(fmt.Sprintf("jacobian key %d equals affine key", i), fmt.Sprintf("%v %x", jac[i].Equals(pks[i]), jac[i].Encode()[:8]))
+		}
+		for l := 1; l <= len(jac); l++ {
+			a1, e1 := crypto.AggregateBLSPublicKeys(jac[:l])
+			a2, _ := crypto.AggregateBLSPublicKeys(pks[:l])
+			mix := append(append([]crypto.PublicKey{}, jac[:l]...), pks[10:10+l]...)
+			a3, e3 := crypto.AggregateBLSPublicKeys(mix)
+			as, _ := crypto.AggregateBLSSignatures(sigs[:l])
+			ok, e := crypto.VerifyBLSSignatureOneMessage(jac[:l], as, msg, kmac)
+			enc := func(k crypto.PublicKey) string {
+				if k == nil {
+					return "nil"
+				}
+				return fmt.Sprintf("%x", k.Encode())
+			}
+			st.addS(fmt.Sprintf("aggregate of %d jacobian keys", l), fmt.Sprintf("%s %s same-as-affine=%v verify:%s", enc(a1), errS(e1), a1 != nil && a2 != nil && a1.Equals(a2), vS(ok, e)))
+			st.addS(fmt.Sprintf("aggregate of %d jacobian + %d affine keys", l, l), fmt.Sprintf("%s %s", enc(a3), errS(e3)))
+			r1, er := crypto.RemoveBLSPublicKeys(a3, jac[:l])
+			st.addS(fmt.Sprintf("remove %d jacobian keys", l), fmt.Sprintf("%s %s", enc(r1), errS(er)))
+		}
+		tsk, tpk, tg, terr := crypto.BLSThresholdKeyGen(5, 2, detBytes("bls-agg-thr", 0, 32))
+		if terr == nil {
+			a, e := crypto.AggregateBLSPublicKeys(tpk)
+			st.addS("aggregate of threshold public key shares", fmt.Sprintf("%x %s group=%x", a.Encode(), errS(e), tg.Encode()[:8]))
+			var ss []crypto.Signature
+			for _, k := range tsk {
+				s, _ := k.Sign(msg, kmac)
+				ss = append(ss, s)
+			}
+			as, _ := crypto.AggregateBLSSignatures(ss)
+			ok, e := crypto.VerifyBLSSignatureOneMessage(tpk, as, msg, kmac)
+			st.addS("one-message verification under threshold public key shares", vS(ok, e))
+		}
+	}
 	// not-BLS keys
 	ec, _ := crypto.GeneratePrivateKey(crypto.ECDSAP256, detBytes("bls-agg-ecdsa", 0, 32))
 	_, e = crypto.AggregateBLSPublicKeys([]crypto.PublicKey{pks[0], ec.PublicKey()})
